@@ -245,6 +245,33 @@ def c02(run):
     interp_trace(run, ["C02"], "doctext", sizes(run, 100, 2000), has_conflict)
 
 
+def reobserved(sc):
+    seen = {}
+    for e in sc:
+        o = e.get('obs', {})
+        if 'view' in o:
+            k = tuple(o['applied'])
+            seen.setdefault(k, set()).add((e.get('r'), e.get('ev'), e.get('via')))
+    return any(len(v) > 1 and len(k) >= 3 for k, v in seen.items())
+
+
+def c01(run):
+    run.cov["rule"] = ("conflict-rich histories by 3 writers, then 4 fresh readers per scenario receive the same changes "
+                       "in shuffled orders, random batchings, duplicates and through apply_changes / apply_changes_batch / "
+                       "one-by-one / load_incremental / merge / save+load; Trace_Same demands equal observations for equal "
+                       "applied sets across all replicas and times; TLC-generated programs (Doc.tla) are replayed with the "
+                       "view every replica must show; non-trivial = scenario where a set of >= 3 changes was observed via "
+                       ">= 2 different replicas/paths")
+    mc_graph(run, "MC_ChangeGraph_quick.cfg" if run.tier == "quick" else "MC_ChangeGraph_thorough.cfg")
+    interp_trace(run, ["C01"], "converge", sizes(run, 150, 3000), reobserved, spec="Trace_Same.tla")
+    interp_trace(run, ["C01"], "doc", sizes(run, 100, 2000), reobserved, spec="Trace_Same.tla")
+    interp_trace(run, ["C01"], "doctext", sizes(run, 60, 1500), reobserved, spec="Trace_Same.tla")
+    if run.tier == "quick":
+        gen_doc(run, [("1, 2, 3", 5, True, 40, False, "")])
+    else:
+        gen_doc(run, [("1, 2, 3", 4, True, 0, False, ""), ("1, 2", 7, False, 0)])
+
+
 def replay(run, path):
     """re-validate a recorded violating scenario"""
     from . import tlc_trace
@@ -261,4 +288,5 @@ REG = {
     "C38": ("model_checking", c38),
     "C10": ("model_checking", c10),
     "C02": ("model_checking", c02),
+    "C01": ("model_checking", c01),
 }
